@@ -16,7 +16,7 @@ import asyncio
 import collections
 
 from harness import vclock
-from harness.core import Failure, Prop
+from harness.core import Failure, Prop, load_known
 
 T0 = 1_700_000_000_000           # ms; "now" of most cases starts here
 HOUR = 3_600_000
@@ -114,7 +114,10 @@ class C18(Prop):
             'API requests (duplicate, unsorted, cached and uncached timestamps; from/to/limit present, absent, empty, '
             'malformed), direct core.history calls (descending slices, open bounds, multi-port removal), value changes '
             'through real polling passes, explicit save_sample calls and single iterations of the real sampler and '
-            'retention janitor, with a monotone virtual clock that moves by '
+            'retention janitor, by-timestamp requests combined with limit/from/to and with 1001-1500 timestamps, and '
+            'OVERLAPPING operations (one by-timestamp query or removal suspended at its persistence call - before or after '
+            'the call executes on the store - while 1-3 other operations run to completion, then resumed and the same '
+            'question asked again), with a monotone virtual clock that moves by '
             'ms..hours; three persistence drivers; a case is non-trivial when at least one query returned a non-empty '
             'answer and the sequence contained a cache hit, a delete, a recording, a limit cut or a duplicate/unsorted '
             'timestamp list; distinct = distinct list of observed answers')
@@ -122,11 +125,17 @@ class C18(Prop):
                       'core.api.funcs.ports.get_port_history / delete_port_history, core.history.get_samples_slice / '
                       'get_samples_by_timestamp / save_sample / remove_samples, core.main.update + HistoryEventHandler, '
                       'samplerTick / janitorTick <-> one iteration of core.history.sampling_task / janitor_task, '
+                      'sStep getBegin/getFetch/getEnd/delBegin/delExec <-> the two halves of get_samples_by_timestamp / '
+                      'remove_samples around their awaited persistence call (gate in harness/persist_c18.py), '
                       'persist.base sample functions on the Redis / Mongo / JSON drivers')
     TRUSTED = ['fakeredis / mongomock stand in for the servers; the delegating persist driver of harness/persist_c18.py',
                'virtual time.time(); instrumented Port subclass as value source',
                'sample values are multiples of 1/4 (exact in binary64); query strings are ASCII']
     ASSUMPTIONS = ['monotone wall clock (the property\'s quantifier); samples are recorded with the current time',
+                   'overlap: at most one operation is suspended at a time, at its single persistence await; the answer of '
+                   'the suspended query must be right, entry by entry, for the store at some instant between its start and '
+                   'its end, a suspended removal takes effect at some instant before it returns, every later answer must '
+                   'be right for the then-current store',
                    'order among samples of one port with equal timestamps is unspecified (compared as multisets)',
                    'an empty `from` argument counts as absent (the code\'s choice); default limit 1000, maximum 10000']
 
@@ -182,6 +191,7 @@ class C18(Prop):
         if self.min_age is None:
             self.min_age = HOUR                # the property's "older than one hour"
         self.old_limit = int(system_date.OLD_TIME_LIMIT) * 1000
+        self.known_race = next((f for f in load_known(self.ID) if f.get('id') == 'C18-remove-overlap-stale-cache'), None)
         self.view_level = core_api.ACCESS_LEVEL_VIEWONLY
         self.admin_level = core_api.ACCESS_LEVEL_ADMIN
 
@@ -265,6 +275,35 @@ class C18(Prop):
              'seeds': [['pi', T0 - 5000 + 2 * k, 4 * (k % 7)] for k in range(1003)],
              'ops': [['get', 10, 'pi', 0, {'from': '0'}], ['get', 10, 'pi', 0, {'from': '0', 'limit': '1002'}],
                      ['hslice', 'pi', None, None, 2, True]]},
+            # a by-timestamp request is one entry per requested timestamp whatever `limit` / `from` / `to` say
+            {'driver': 'json', 'base': T0, 'intervals': {'pb': 0, 'pi': 0, 'pn': 0}, 'retention': {},
+             'seeds': [['pn', t1, 4], ['pn', t2, 12], ['pn', t3, 24]],
+             'ops': [['get', 10, 'pn', 0, {'timestamps': f'{t3},{t1},{t1},{t2 + 1}', 'limit': '2'}],
+                     ['get', 10, 'pn', 0, {'timestamps': f'{t3},{t1},{t1},{t2 + 1}', 'limit': '1', 'from': f'{t3}',
+                                           'to': f'{t1}'}],
+                     ['get', 10, 'pn', 0, {'timestamps': ','.join(str(t1 - 600 + (7 * k) % 1300) for k in range(1203))}]]},
+            # a removal that completes while a by-timestamp query waits for the persistence layer (reply held back /
+            # request held back): the resumed query must not leave the removed sample in the cache
+            {'driver': 'json', 'base': T0, 'intervals': {'pb': 0, 'pi': 0, 'pn': 0}, 'retention': {},
+             'seeds': [['pn', t1, 168]],
+             'ops': [['begin', 'a', ['get', 30, 'pn', 0, {'timestamps': f'{t2}'}]],
+                     ['del', 30, 'pn', 0, {'from': '0', 'to': f'{T0}'}], ['end'],
+                     ['get', 30, 'pn', 1, {'timestamps': f'{t2}'}], ['get', 30, 'pn', 1, {'from': '0'}]]},
+            {'driver': 'redis', 'base': T0, 'intervals': {'pb': 0, 'pi': -1, 'pn': 0}, 'retention': {'pi': 3 * 3600},
+             'seeds': [['pi', t1, 8], ['pi', t3 + 5, 12]],
+             'ops': [['hbyts', 'pi', 0, [t2]],
+                     ['begin', 'b', ['hbyts', 'pi', 0, [t2, t3, t1 - 1, T0]]],
+                     ['hremove', ['pi', 'pb'], None, t2, 0], ['poll', 'pi', 1, 'i7'], ['end'],
+                     ['hbyts', 'pi', 2, [t2, t3, t1 - 1, T0]],
+                     ['begin', 'a', ['hbyts', 'pi', 2, [t3 + 6, t3 + 7]]], ['tick', 1000], ['end'],
+                     ['hbyts', 'pi', 1000, [t3 + 6, t3 + 7]]]},
+            # a by-timestamp query that runs while a removal waits for the persistence layer
+            # (known finding C18-remove-overlap-stale-cache on the code as it is)
+            {'driver': 'json', 'base': T0, 'intervals': {'pb': 0, 'pi': 0, 'pn': 0}, 'retention': {},
+             'seeds': [['pn', t1, 168]],
+             'ops': [['begin', 'b', ['del', 30, 'pn', 0, {'from': '0', 'to': f'{T0}'}]],
+                     ['get', 30, 'pn', 0, {'timestamps': f'{t2}'}], ['end'],
+                     ['get', 30, 'pn', 1, {'timestamps': f'{t2}'}], ['get', 30, 'pn', 1, {'from': '0'}]]},
             # argument validation order / access levels
             {'driver': 'json', 'base': T0, 'intervals': {'pb': 0, 'pi': 0, 'pn': 0}, 'seeds': [['pn', 5, 1]],
              'ops': [['get', 0, 'pn', 0, {}], ['get', 10, 'zz', 0, {}], ['get', 10, 'pn', 0, {}],
@@ -310,7 +349,8 @@ class C18(Prop):
                   rng.choice([0, 4, 8, -4, 5, 12])] for _ in range(rng.randint(0, 5))]
         now = rng.choice([0, 1, 1000])
         ops = []
-        kind = rng.choice(['record', 'record', 'delete', 'changes', 'changes', 'cross-port', 'periodic', 'periodic'])
+        kind = rng.choice(['record', 'record', 'delete', 'changes', 'changes', 'cross-port', 'periodic', 'periodic',
+                           'overlap', 'overlap'])
         retention = {n: 0 for n in names}
         if kind == 'record':
             intervals[main] = rng.choice([-1, -1, -1, 5])
@@ -354,6 +394,40 @@ class C18(Prop):
                     ops.append(['interval', main, rng.choice([-1, 0, 5])])
             ops.append(['get', 10, main, now + 1, {'from': '0'}])
             ops.append(['hslice', main, None, None, rng.choice([None, 1, 2]), True])
+        elif kind == 'overlap':
+            # a by-timestamp query and a removal / recording overlapping at the persistence call, then the same question
+            tss = [rng.choice(old) + rng.choice([0, 0, 1, -1]) for _ in range(rng.randint(1, 3))]
+            if rng.random() < 0.3:
+                tss.append(base + now)
+            get = (lambda n: ['get', 10, main, n, {'timestamps': ','.join(map(str, tss))}]) if rng.random() < 0.6 else \
+                  (lambda n: ['hbyts', main, n, list(tss)])
+            a = rng.choice(old) + rng.choice([0, 0, 1, -1])
+            b = rng.choice(old + [base]) + rng.choice([0, 0, 1])
+            if a > b:
+                a, b = b, a
+            rm = ['del', 30, main, now, {'from': str(a), 'to': str(b)}] if rng.random() < 0.6 else \
+                 ['hremove', rng.sample(names, rng.choice([1, 2])), rng.choice([None, a]), rng.choice([None, b]), now]
+            if rng.random() < 0.3:
+                ops.append(get(now))                     # something is cached already
+            if rng.random() < 0.7:
+                intervals[main] = -1
+                later = now + rng.choice([0, 0, 0, 1, HOUR + 1, 2 * HOUR])      # the clock may move on while it waits
+                if later > now and rng.random() < 0.7:
+                    tss.append(base + now + rng.choice([0, 1]))
+                begin = ['begin', rng.choice(['a', 'b']), get(now)]
+                inner = [rm] if rng.random() < 0.6 else [['poll', main, rng.choice([now, now, later]), rng.choice(self.VALUES[tag][:2])]]
+                if rng.random() < 0.3:
+                    inner.append(rng.choice([get(later), ['poll', main, later, rng.choice(self.VALUES[tag])], ['tick', later]]))
+                if later > now:
+                    inner.append(rng.choice([['tick', later], ['hslice', main, None, None, 1, True]]))
+                now = later
+                ops += [begin] + inner + [['end']]
+            else:
+                ops += [['begin', rng.choice(['a', 'b', 'b']), rm], get(now)]
+                if rng.random() < 0.3:
+                    ops.append(['poll', main, now, rng.choice(self.VALUES[tag])])
+                ops.append(['end'])
+            ops += [get(now + 1), get(now + 1), ['get', 10, main, now + 1, {'from': '0'}]]
         elif kind == 'periodic':
             base = rng.choice([T0, T0, T0 + 1, T0 + 999, 1546304400000 - 2000])
             intervals = {n: rng.choice([1, 1, 2, 3, 5, 0, -1]) for n in names}
@@ -441,7 +515,15 @@ class C18(Prop):
                         tss.append(self._ts(rng, grid))
                 tss = [max(t, 0) for t in tss]
                 recent_ts = (recent_ts + tss)[-8:]
+                if rng.random() < (0.004 if tier == 'quick' else 0.008):     # more timestamps than any limit
+                    tss = [max(self._ts(rng, grid) + rng.choice([0, 0, 1, -1, 2]), 0) for _ in range(rng.randint(1001, 1500))]
                 q = {'timestamps': ','.join(str(t) for t in tss)}
+                if rng.random() < 0.3:                   # the range arguments are validated but otherwise ignored
+                    q['limit'] = str(rng.choice([1, 1, 2, 2, 3, 1000, 10000]))
+                if rng.random() < 0.15:
+                    q['to'] = str(self._ts(rng, grid))
+                if rng.random() < 0.15:
+                    q['from'] = str(self._ts(rng, grid))
                 if rng.random() < 0.1:
                     q['from'] = self._weird(rng, grid)
                 if rng.random() < 0.05:
@@ -510,7 +592,35 @@ class C18(Prop):
             else:
                 ops.append(['tick', now])
         retention = {n: rng.choice([0, 0, 0, 3600, 4 * 3600, 1]) for n in names}
+        if rng.random() < 0.35:
+            ops = self._overlap(rng, ops)
         return {'driver': driver, 'base': base, 'intervals': intervals, 'retention': retention, 'seeds': seeds, 'ops': ops}
+
+    @staticmethod
+    def _overlap(rng, ops):
+        """Suspend one by-timestamp query or removal of the sequence at its persistence call, let the next 1-3 operations
+        overtake it, resume it, and ask the same by-timestamp question again afterwards."""
+        def is_byts(o):
+            return (o[0] == 'get' and 'timestamps' in o[4] and len(o[4]['timestamps']) < 400) or o[0] == 'hbyts'
+        cand = [i for i, o in enumerate(ops) if is_byts(o) or o[0] in ('del', 'hremove')]
+        if not cand:
+            return ops
+        i = rng.choice(cand)
+        outer = ops[i]
+        n_inner = rng.choice([1, 1, 2, 3])
+        inner = ops[i + 1:i + 1 + n_inner]
+        rest = ops[i + 1 + n_inner:]
+        def now_of(o):
+            return {'get': 3, 'del': 3, 'poll': 2, 'hsave': 2, 'hbyts': 2, 'hremove': 4, 'tick': 1}.get(o[0])
+        nows = [o[now_of(o)] for o in ops[:i + 1 + n_inner] if now_of(o) is not None]
+        later = max(nows) if nows else 0
+        again = []
+        asked = [o for o in [outer] + inner if is_byts(o)]
+        for o in asked[:2]:
+            o2 = list(o)
+            o2[now_of(o)] = later
+            again.append(o2)
+        return ops[:i] + [['begin', rng.choice(['a', 'b']), outer]] + inner + [['end']] + again + rest
 
     def shrink_candidates(self, case):
         ops, seeds = case['ops'], case['seeds']
@@ -522,6 +632,13 @@ class C18(Prop):
                 cand = ops[:i] + ops[i + size:]
                 if cand and len(cand) < n:
                     yield dict(case, ops=cand)
+        for i, op in enumerate(ops):                       # run a suspended operation to completion instead
+            if op[0] == 'begin':
+                rest = ops[i + 1:]
+                if ['end'] in rest:
+                    k = rest.index(['end'])
+                    rest = rest[:k] + rest[k + 1:]
+                yield dict(case, ops=ops[:i] + [op[2]] + rest)
         m = len(seeds)
         for size in (m // 2, 1):
             if size < 1:
@@ -529,7 +646,7 @@ class C18(Prop):
             for i in range(0, m, size):
                 yield dict(case, seeds=seeds[:i] + seeds[i + size:])
         for i, op in enumerate(ops):
-            if op[0] in ('get', 'del') and isinstance(op[4], dict):
+            if op[0] in ('get', 'del') and isinstance(op[4], dict) and len(op[4].get('timestamps', '')) < 2000:
                 q = op[4]
                 for k in list(q):
                     if k != 'timestamps' and len(q) > 1:
@@ -580,10 +697,92 @@ class C18(Prop):
                 out.append((s['timestamp'], tok_of_value(s['value'])))
         return out
 
+    @staticmethod
+    def _events(case):
+        """The operations of a case as a flat, well-formed event list: `['begin', mode, op]` suspends `op` (a by-timestamp
+        query or a removal) at its persistence call - mode 'b' before the call executes on the store, 'a' after (reply
+        held back) - the following operations run to completion, `['end']` resumes it.  At most one operation is
+        suspended at a time; stray markers (shrinking) are dropped, a missing `end` is supplied; the final content of
+        every port is read at the end."""
+        ev, open_ = [], False
+        for op in case['ops']:
+            if op[0] == 'begin':
+                if open_ or op[2][0] not in ('get', 'hbyts', 'del', 'hremove'):
+                    continue
+                open_ = True
+            elif op[0] == 'end':
+                if not open_:
+                    continue
+                open_ = False
+            ev.append(op)
+        if open_:
+            ev.append(['end'])
+        return ev + [['hslice', n, None, None, None, False] for n in PORTS]
+
+    async def _exec(self, op, base, byname):
+        """One operation on the real code, run to completion; returns its canonical observable."""
+        k = op[0]
+        if k == 'get':
+            _, level, port, now, query = op
+            vclock.set(clock_of(base + now))
+            res = await self._api(self.ports_funcs.get_port_history, level, 'GET', port, query)
+            if isinstance(res, str):
+                return res
+            if 'timestamps' in query:
+                return ['t', self._canon_byts(list(res))]
+            return ['s', self._canon_slice(list(res))]
+        if k == 'del':
+            _, level, port, now, query = op
+            vclock.set(clock_of(base + now))
+            res = await self._api(self.ports_funcs.delete_port_history, level, 'DELETE', port, query)
+            return res if isinstance(res, str) else 'ok'
+        if k == 'poll':
+            _, port, now, tok = op
+            vclock.set(clock_of(base + now))
+            byname[port].src_value = value_of_tok(tok)
+            await self.core_main.update()
+            for _ in range(6):
+                await asyncio.sleep(0)
+            return 'ok'
+        if k == 'hsave':
+            _, port, now = op
+            vclock.set(clock_of(base + now))
+            await self.core_history.save_sample(byname[port], base + now)
+            return 'ok'
+        if k == 'hslice':
+            _, port, frm, to, limit, desc = op
+            res = await self.core_history.get_samples_slice(byname[port], frm, to, limit, desc)
+            return ['s', self._canon_slice(list(res))]
+        if k == 'hbyts':
+            _, port, now, tss = op
+            vclock.set(clock_of(base + now))
+            res = await self.core_history.get_samples_by_timestamp(byname[port], list(tss))
+            return ['t', self._canon_byts(list(res))]
+        if k == 'hremove':
+            _, names, frm, to, now = op
+            vclock.set(clock_of(base + now))
+            await self.core_history.remove_samples([byname[n] for n in names], frm, to)
+            return 'ok'
+        if k == 'interval':
+            await byname[op[1]].set_attr('history_interval', op[2])
+            return 'ok'
+        if k == 'retention':
+            await byname[op[1]].set_attr('history_retention', op[2])
+            return 'ok'
+        if k == 'tick':
+            vclock.set(clock_of(base + op[1]))
+            self.loop.step(1.0)            # the sleeping sampler and janitor are due: one iteration each
+            for _ in range(10):
+                await asyncio.sleep(0)
+            return 'ok'
+        raise ValueError(op)
+
     async def _real(self, case):
         base = case['base']
         vclock.set(clock_of(base))
         await self.backends.fresh_backend(case['driver'])
+        switch = self.backends.SwitchDriver
+        switch.disarm()
         ports = await self.core_ports.load([
             {'driver': self.SrcPort, 'port_id': 'pb', 'typ': 'boolean'},
             {'driver': self.SrcPort, 'port_id': 'pi', 'integer': True},
@@ -591,6 +790,7 @@ class C18(Prop):
         ])
         byname = {p.get_id(): p for p in ports}
         out = []
+        flight = None            # (task, gate) of the suspended operation
         try:
             for p in ports:
                 await p.enable()
@@ -600,118 +800,101 @@ class C18(Prop):
             await self.core_history.remove_samples(ports)
             for name, ts, q in case['seeds']:
                 await self.persist.save_sample(COLLECTION, name, ts, q / 4.0)
-            for op in case['ops'] + [['hslice', n, None, None, None, False] for n in PORTS]:
-                k = op[0]
-                if k == 'get':
-                    _, level, port, now, query = op
-                    vclock.set(clock_of(base + now))
-                    res = await self._api(self.ports_funcs.get_port_history, level, 'GET', port, query)
-                    if isinstance(res, str):
-                        out.append(res)
-                    elif 'timestamps' in query:
-                        out.append(['t', self._canon_byts(list(res))])
+            for op in self._events(case):
+                if op[0] == 'begin':
+                    _, mode, outer = op
+                    gate = switch.arm('byts' if outer[0] in ('get', 'hbyts') else 'remove', mode)
+                    task = asyncio.ensure_future(self._exec(outer, base, byname))
+                    for _ in range(40):
+                        if task.done() or gate.reached:
+                            break
+                        await asyncio.sleep(0)
+                    if task.done():          # refused, or answered without reaching the persistence layer
+                        switch.disarm()
+                        out.append(task.result())
+                    elif gate.reached:
+                        flight = (task, gate)
+                        out.append('pending')
                     else:
-                        out.append(['s', self._canon_slice(list(res))])
-                elif k == 'del':
-                    _, level, port, now, query = op
-                    vclock.set(clock_of(base + now))
-                    res = await self._api(self.ports_funcs.delete_port_history, level, 'DELETE', port, query)
-                    out.append(res if isinstance(res, str) else 'ok')
-                elif k == 'poll':
-                    _, port, now, tok = op
-                    vclock.set(clock_of(base + now))
-                    byname[port].src_value = value_of_tok(tok)
-                    await self.core_main.update()
-                    for _ in range(6):
-                        await asyncio.sleep(0)
-                    out.append('ok')
-                elif k == 'hsave':
-                    _, port, now = op
-                    vclock.set(clock_of(base + now))
-                    await self.core_history.save_sample(byname[port], base + now)
-                    out.append('ok')
-                elif k == 'hslice':
-                    _, port, frm, to, limit, desc = op
-                    res = await self.core_history.get_samples_slice(byname[port], frm, to, limit, desc)
-                    out.append(['s', self._canon_slice(list(res))])
-                elif k == 'hbyts':
-                    _, port, now, tss = op
-                    vclock.set(clock_of(base + now))
-                    res = await self.core_history.get_samples_by_timestamp(byname[port], list(tss))
-                    out.append(['t', self._canon_byts(list(res))])
-                elif k == 'hremove':
-                    _, names, frm, to, now = op
-                    vclock.set(clock_of(base + now))
-                    await self.core_history.remove_samples([byname[n] for n in names], frm, to)
-                    out.append('ok')
-                elif k == 'interval':
-                    _, port, iv = op
-                    await byname[port].set_attr('history_interval', iv)
-                    out.append('ok')
-                elif k == 'retention':
-                    _, port, rt = op
-                    await byname[port].set_attr('history_retention', rt)
-                    out.append('ok')
-                elif k == 'tick':
-                    vclock.set(clock_of(base + op[1]))
-                    self.loop.step(1.0)            # the sleeping sampler and janitor are due: one iteration each
-                    for _ in range(10):
-                        await asyncio.sleep(0)
-                    out.append('ok')
+                        raise RuntimeError(f'suspended operation neither finished nor reached the persistence layer: {op}')
+                elif op[0] == 'end':
+                    if flight is None:
+                        out.append('ok')
+                    else:
+                        task, gate = flight
+                        flight = None
+                        gate.event.set()
+                        out.append(await task)
                 else:
-                    raise ValueError(op)
+                    out.append(await self._exec(op, base, byname))
         finally:
+            switch.disarm()
+            if flight is not None:
+                flight[1].event.set()
+                try:
+                    await flight[0]
+                except Exception:
+                    pass
             for p in ports:
                 await p.remove(persisted_data=False)
             await asyncio.sleep(0)
         return out
 
     # ------------------------------------------------------------------------------------------ model
-    def _model(self, case, driver):
+    def _model_line(self, op, base):
+        pid_of = lambda n: PORTS[n][0] if n in PORTS else UNKNOWN_PID   # noqa: E731
+        k = op[0]
+        if k == 'get':
+            _, level, port, now, q = op
+            return (f'get {level} {pid_of(port)} {base + now} {hexq(q.get("from"))} {hexq(q.get("to"))} '
+                    f'{hexq(q.get("limit"))} {hexq(q.get("timestamps"))}')
+        if k == 'del':
+            _, level, port, now, q = op
+            return f'del {level} {pid_of(port)} {hexq(q.get("from"))} {hexq(q.get("to"))}'
+        if k == 'poll':
+            return f'poll {pid_of(op[1])} {base + op[2]} {op[3]}'
+        if k == 'hsave':
+            return f'hsave {pid_of(op[1])} {base + op[2]}'
+        if k == 'hslice':
+            _, port, frm, to, limit, desc = op
+            return f'hslice {pid_of(port)} {optw(frm)} {optw(to)} {optw(limit)} {1 if desc else 0}'
+        if k == 'hbyts':
+            _, port, now, tss = op
+            return f'hbyts {pid_of(port)} {base + now} {",".join(map(str, tss)) if tss else "-"}'
+        if k == 'hremove':
+            _, names, frm, to, now = op
+            return f'hremove {",".join(str(pid_of(n)) for n in names) if names else "-"} {optw(frm)} {optw(to)}'
+        if k == 'interval':
+            return f'interval {pid_of(op[1])} {op[2]}'
+        if k == 'retention':
+            return f'retention {pid_of(op[1])} {op[2]}'
+        if k == 'tick':
+            return f'tick {base + op[1]}'
+        if k == 'begin':
+            _, mode, outer = op
+            return ('gbegin' if outer[0] in ('get', 'hbyts') else 'dbegin') + f' {mode} ' + self._model_line(outer, base)
+        if k == 'end':
+            return 'end'
+        raise ValueError(op)
+
+    def _model(self, case, driver, variant=1):
+        """variant: 1 = the code as it is (with the by-timestamp repair); 3 = with the candidate repair of
+        remove_samples (cache dropped again after the persistence call)."""
         base = case['base']
-        rep = driver.ask(f'begin 1 {self.min_age} {self.old_limit} {API_DEFAULT_LIMIT} {API_MAX_LIMIT} '
+        rep = driver.ask(f'begin {variant} {self.min_age} {self.old_limit} {API_DEFAULT_LIMIT} {API_MAX_LIMIT} '
                          f'{self.view_level} {self.admin_level}')
         assert rep == 'ok', rep
         for name, (pid, tag) in PORTS.items():
             assert driver.ask(f'port {pid} {tag} {case["intervals"][name]} {case.get("retention", {}).get(name, 0)}') == 'ok'
-        pid_of = lambda n: PORTS[n][0] if n in PORTS else UNKNOWN_PID   # noqa: E731
         for name, ts, q in case['seeds']:
-            assert driver.ask(f'seed {pid_of(name)} {ts} {q}') == 'ok'
+            assert driver.ask(f'seed {PORTS[name][0]} {ts} {q}') == 'ok'
         out = []
         hits = 0
-        for op in case['ops'] + [['hslice', n, None, None, None, False] for n in PORTS]:
-            k = op[0]
-            if k == 'get':
-                _, level, port, now, q = op
-                rep = driver.ask(f'get {level} {pid_of(port)} {base + now} {hexq(q.get("from"))} {hexq(q.get("to"))} '
-                                 f'{hexq(q.get("limit"))} {hexq(q.get("timestamps"))}')
-            elif k == 'del':
-                _, level, port, now, q = op
-                rep = driver.ask(f'del {level} {pid_of(port)} {hexq(q.get("from"))} {hexq(q.get("to"))}')
-            elif k == 'poll':
-                rep = driver.ask(f'poll {pid_of(op[1])} {base + op[2]} {op[3]}')
-            elif k == 'hsave':
-                rep = driver.ask(f'hsave {pid_of(op[1])} {base + op[2]}')
-            elif k == 'hslice':
-                _, port, frm, to, limit, desc = op
-                rep = driver.ask(f'hslice {pid_of(port)} {optw(frm)} {optw(to)} {optw(limit)} {1 if desc else 0}')
-            elif k == 'hbyts':
-                _, port, now, tss = op
-                rep = driver.ask(f'hbyts {pid_of(port)} {base + now} {",".join(map(str, tss)) if tss else "-"}')
-            elif k == 'hremove':
-                _, names, frm, to, now = op
-                rep = driver.ask(f'hremove {",".join(str(pid_of(n)) for n in names)} {optw(frm)} {optw(to)}')
-            elif k == 'interval':
-                rep = driver.ask(f'interval {pid_of(op[1])} {op[2]}')
-            elif k == 'retention':
-                rep = driver.ask(f'retention {pid_of(op[1])} {op[2]}')
-            elif k == 'tick':
-                rep = driver.ask(f'tick {base + op[1]}')
-            else:
-                raise ValueError(op)
+        for op in self._events(case):
+            rep = driver.ask(self._model_line(op, base))
             if rep == 'bad-op':
                 raise AssertionError(f'model driver rejected {op}')
-            if rep.startswith('err'):
+            if rep.startswith('err') or rep == 'pending':
                 out.append(rep)
             elif rep.startswith('ok s'):
                 out.append(['s', self._parse_entries(rep[4:])])
@@ -739,19 +922,50 @@ class C18(Prop):
     # ------------------------------------------------------------------------------------------ oracle
     def _oracle(self, case, real):
         """The property statement evaluated on the real answers, from the list of recorded samples alone.
-        Returns (failure text or None, per-op ambiguity info for the correspondence, tags)."""
+        Returns (failure text or None, per-event ambiguity info for the correspondence, tags).
+
+        `stores` is the list of sample lists the hub may legitimately be answering from: one, except while (and after) a
+        removal is suspended at its persistence call - it takes effect at some instant before it returns, so `bases`
+        holds the store without it and `stores` the stores with it applied at each possible instant.  The
+        answer of a by-timestamp query that was itself suspended must, entry by entry, be right for the store at some
+        instant between its start and its end; every later answer must be right for the then-current store."""
         base = case['base']
-        store = [(n, ts, q) for n, ts, q in case['seeds']]          # (port, ts, quarters), insertion order
+        stores = [[(n, ts, q) for n, ts, q in case['seeds']]]       # (port, ts, quarters), insertion order
         last = {n: 'n' for n in PORTS}
         interval = dict(case['intervals'])
         retention = {n: case.get('retention', {}).get(n, 0) for n in PORTS}
         last_ts = {n: 0 for n in PORTS}
         fail = None
-        amb = []              # per op: set of positions / timestamps whose value is not determined (ties)
+        amb = []              # per event: timestamps whose value is not determined (ties)
         tags = set()
-        ops = case['ops'] + [['hslice', n, None, None, None, False] for n in PORTS]
+        ops = self._events(case)
+        pend_get = None       # (port, tss, snapshots) of a suspended by-timestamp query
+        pend_del = None       # function applying the suspended removal
 
-        def check_slice(idx, port, frm, to, limit, desc, got):
+        bases = []            # while a removal is suspended: the candidate stores WITHOUT it (else empty)
+
+        def uniq(lst):
+            seen, keep = set(), []
+            for st in lst:
+                key = tuple(st)
+                if key not in seen:
+                    seen.add(key)
+                    keep.append(st)
+            return keep
+
+        def candidates():
+            return bases + stores
+
+        def mutate(fn):
+            bases[:] = uniq([fn(b) for b in bases])
+            stores[:] = [fn(st) for st in stores]
+            if pend_del is not None:
+                stores.extend(pend_del(b) for b in bases)      # ... or the suspended removal takes effect only now
+            stores[:] = uniq(stores)
+            if pend_get is not None:
+                pend_get[2].extend([list(st) for st in candidates()])
+
+        def check_slice_one(store, idx, port, frm, to, limit, desc, got):
             tag = PORTS[port][1]
             sel = [(ts, q) for (n, ts, q) in store if n == port and (frm is None or frm <= ts) and (to is None or ts < to)]
             sel.sort(key=lambda s: s[0], reverse=desc)
@@ -785,45 +999,74 @@ class C18(Prop):
                             f'{dict(groups[ts])}'), ambiguous
             return None, ambiguous
 
-        def check_byts(idx, port, tss, got):
+        def check_slice(idx, port, frm, to, limit, desc, got):
+            first, ambiguous = None, set()
+            for st in candidates():
+                f, a = check_slice_one(st, idx, port, frm, to, limit, desc, got)
+                ambiguous |= a
+                if f is None:
+                    return None, ambiguous
+                first = first or f
+            return first, ambiguous
+
+        def check_byts(idx, port, tss, got, cands=None):
+            cands = candidates() if cands is None else cands
             tag = PORTS[port][1]
             if len(tss) != len(set(tss)):
                 tags.add('dup-timestamps')
             if tss != sorted(tss):
                 tags.add('unsorted-timestamps')
+            if len(tss) > API_DEFAULT_LIMIT:
+                tags.add('more-timestamps-than-limit')
             ambiguous = set()
             if not isinstance(got, list) or got[0] != 't':
                 return f'op {idx} {ops[idx]}: expected a by-timestamp answer, got {got}', ambiguous
             got = got[1]
             exp = []
+            memo = {}
             for t in tss:
-                cand = [(ts, q) for (n, ts, q) in store if n == port and ts <= t]
-                if not cand:
-                    exp.append(None)
+                if t in memo:
+                    exp.append(memo[t])
                     continue
-                m = max(ts for ts, _ in cand)
-                if m == t:
-                    tags.add('exact-timestamp-hit')
-                allowed = {adapt(tag, q) for ts, q in cand if ts == m}
-                if len(allowed) > 1:
-                    ambiguous.add(t)
-                    tags.add('tie-distinct-values')
+                allowed = set()          # typed values, None = null
+                for store in cands:
+                    cand = [(ts, q) for (n, ts, q) in store if n == port and ts <= t]
+                    if not cand:
+                        allowed.add(None)
+                        continue
+                    m = max(ts for ts, _ in cand)
+                    if m == t:
+                        tags.add('exact-timestamp-hit')
+                    here = {adapt(tag, q) for ts, q in cand if ts == m}
+                    if len(here) > 1:        # a tie with distinct values: which one is unspecified (also for the model)
+                        ambiguous.add(t)
+                        tags.add('tie-distinct-values')
+                    allowed |= here
+                if len(allowed) > 1 and t not in ambiguous:
+                    tags.add('overlap-either-answer')   # the oracle accepts either; model and code must still agree
+                memo[t] = allowed
                 exp.append(allowed)
+            ambiguous = {('idx', j) for j, t in enumerate(tss) if t in ambiguous}
             if len(got) != len(tss):
-                return (f'op {idx} {ops[idx]}: {len(got)} entries for {len(tss)} requested timestamps '
-                        f'(answer {got})'), ambiguous
+                return (f'op {idx} {str(ops[idx])[:300]}: {len(got)} entries for {len(tss)} requested timestamps '
+                        f'(answer {str(got)[:300]})'), ambiguous
             for j, (t, e, g) in enumerate(zip(tss, exp, got)):
-                if e is None:
-                    if g != 'n':
-                        return f'op {idx} {ops[idx]}: entry {j} (timestamp {t}) is {g}, no sample at or before it', ambiguous
-                elif g == 'n' or g[0] != t or g[1] not in e:
-                    return (f'op {idx} {ops[idx]}: entry {j} is {g}; requested timestamp {t}, newest sample at or before it '
-                            f'has value {sorted(e)}'), ambiguous
+                if g == 'n':
+                    if None not in e:
+                        return (f'op {idx} {str(ops[idx])[:300]}: entry {j} (timestamp {t}) is null, newest sample at or '
+                                f'before it has value {sorted(x for x in e if x)}'), ambiguous
+                elif g[0] != t or g[1] not in e:
+                    return (f'op {idx} {str(ops[idx])[:300]}: entry {j} is {g}; requested timestamp {t}, newest sample at or '
+                            f'before it has value {sorted(str(x) for x in e)}'), ambiguous
             return None, ambiguous
 
-        for idx, op in enumerate(ops):
+        def parse_byts(q):
+            return [int(x) for x in q['timestamps'].split(',')]
+
+        def eval_op(idx, op, got):
+            """atomic operation: returns (failure, ambiguity)"""
+            nonlocal pend_get
             k = op[0]
-            got = real[idx]
             f, a = None, set()
             if k == 'get':
                 _, level, port, now, q = op
@@ -832,8 +1075,9 @@ class C18(Prop):
                 elif port in PORTS:
                     try:
                         if 'timestamps' in q:
-                            tss = [int(x) for x in q['timestamps'].split(',')]
-                            f, a = check_byts(idx, port, tss, got)
+                            if len(q) > 1:
+                                tags.add('timestamps-with-range-args')
+                            f, a = check_byts(idx, port, parse_byts(q), got)
                         else:
                             frm = int(q['from']) if q.get('from') else None
                             to = int(q['to']) if 'to' in q else base + now
@@ -853,7 +1097,7 @@ class C18(Prop):
                     tags.add('delete')
                     try:
                         frm, to = int(q['from']), int(q['to'])
-                        store = [s for s in store if not (s[0] == port and frm <= s[1] < to)]
+                        mutate(lambda st: [x for x in st if not (x[0] == port and frm <= x[1] < to)])
                     except (ValueError, KeyError):
                         f = f'op {idx} {op}: accepted although from/to are not both integers'
                 else:
@@ -865,18 +1109,20 @@ class C18(Prop):
                     if interval[port] == -1 and clock_of(base + now) > self.old_limit / 1000:
                         last_ts[port] = base + now
                     if interval[port] == -1 and clock_of(base + now) > self.old_limit / 1000 and tok != 'n':
-                        store.append((port, base + now, stored_of_tok(tok)))
+                        smp = (port, base + now, stored_of_tok(tok))
+                        mutate(lambda st: st + [smp])
                         tags.add('change-recorded')
                     else:
                         tags.add('change-not-recorded')
             elif k == 'hsave':
                 _, port, now = op
                 if last[port] != 'n':
-                    store.append((port, base + now, stored_of_tok(last[port])))
+                    smp = (port, base + now, stored_of_tok(last[port]))
+                    mutate(lambda st: st + [smp])
                     tags.add('save-sample')
             elif k == 'hslice':
                 _, port, frm, to, limit, desc = op
-                if desc and idx < len(case['ops']):
+                if desc and idx < len(ops) - len(PORTS):
                     tags.add('descending')
                 f, a = check_slice(idx, port, frm, to, limit, desc, got)
             elif k == 'hbyts':
@@ -884,7 +1130,8 @@ class C18(Prop):
             elif k == 'hremove':
                 _, names, frm, to, now = op
                 tags.add('delete')
-                store = [s for s in store if not (s[0] in names and (frm is None or frm <= s[1]) and (to is None or s[1] < to))]
+                mutate(lambda st: [x for x in st if not ((not names or x[0] in names) and (frm is None or frm <= x[1])
+                                                         and (to is None or x[1] < to))])
             elif k == 'interval':
                 interval[op[1]] = op[2]
             elif k == 'retention':
@@ -896,18 +1143,57 @@ class C18(Prop):
                     for n in PORTS:                 # janitor: samples older than the retention go
                         if retention[n] > 0:
                             lim = (now_s - retention[n]) * 1000
-                            before = len(store)
-                            store = [x for x in store if not (x[0] == n and 0 <= x[1] < lim)]
-                            if len(store) != before:
+                            before = len(candidates()[0])
+                            mutate(lambda st, n=n, lim=lim: [x for x in st if not (x[0] == n and 0 <= x[1] < lim)])
+                            if len(candidates()[0]) != before:
                                 tags.add('janitor-removed')
                     for n in PORTS:                 # sampler: ports with a period whose last sample is old enough
                         if interval[n] > 0 and now_ms - last_ts[n] >= interval[n] * 1000:
                             last_ts[n] = now_ms
                             if last[n] != 'n':
-                                store.append((n, now_ms, stored_of_tok(last[n])))
+                                smp = (n, now_ms, stored_of_tok(last[n]))
+                                mutate(lambda st, smp=smp: st + [smp])
                                 tags.add('periodic-sample')
                         elif interval[n] > 0:
                             tags.add('periodic-not-due')
+            return f, a
+
+        for idx, op in enumerate(ops):
+            got = real[idx]
+            f, a = None, set()
+            if op[0] == 'begin':
+                _, mode, outer = op
+                if got != 'pending':
+                    f, a = eval_op(idx, outer, got)            # completed at once: an ordinary operation
+                elif outer[0] in ('get', 'hbyts'):
+                    tags.add('overlapped-query-' + mode)
+                    port = outer[2] if outer[0] == 'get' else outer[1]
+                    tss = parse_byts(outer[4]) if outer[0] == 'get' else list(outer[3])
+                    pend_get = (port, tss, [list(st) for st in candidates()])
+                else:
+                    tags.add('overlapped-removal-' + mode)
+                    if outer[0] == 'del':
+                        port, frm, to = outer[2], int(outer[4]['from']), int(outer[4]['to'])
+                        rm = lambda st, port=port, frm=frm, to=to: [x for x in st if not (x[0] == port and frm <= x[1] < to)]  # noqa: E731
+                    else:
+                        names, frm, to = outer[1], outer[2], outer[3]
+                        rm = lambda st, names=names, frm=frm, to=to: [  # noqa: E731
+                            x for x in st if not ((not names or x[0] in names) and (frm is None or frm <= x[1])
+                                                  and (to is None or x[1] < to))]
+                    pend_del = rm
+                    bases[:] = stores                          # from now on: without the removal ...
+                    stores[:] = uniq([rm(b) for b in bases])   # ... or with it
+            elif op[0] == 'end':
+                if pend_get is not None:
+                    port, tss, snaps = pend_get
+                    pend_get = None
+                    f, a = check_byts(idx, port, tss, got, cands=snaps)
+                elif pend_del is not None:
+                    pend_del = None
+                    tags.add('delete')
+                    bases[:] = []                              # the removal has returned: it has taken effect
+            else:
+                f, a = eval_op(idx, op, got)
             amb.append(a)
             if f and fail is None:
                 fail = f
@@ -915,16 +1201,17 @@ class C18(Prop):
 
     @staticmethod
     def _relax(ans, ambiguous):
-        """Canonical form for the model-vs-code comparison: values at tie timestamps with distinct stored values are
-        not determined by the property (and not by the drivers) -> multiset per timestamp."""
+        """Canonical form for the model-vs-code comparison: values at tie timestamps with distinct stored values (and
+        entries of an overlapped query that may legitimately reflect either of two store states) are not determined
+        by the property -> wildcard.  Range answers: by timestamp; by-timestamp answers: by position."""
         if not isinstance(ans, list):
             return ans
         kind, entries = ans
-        if not ambiguous:
-            return [kind, [list(e) if isinstance(e, tuple) else e for e in entries]]
         out = []
-        for e in entries:
-            if isinstance(e, tuple) and e[0] in ambiguous:
+        for j, e in enumerate(entries):
+            if ('idx', j) in ambiguous and kind == 't':
+                out.append('*')
+            elif isinstance(e, tuple) and e[0] in ambiguous and kind == 's':
                 out.append([e[0], '*'])
             else:
                 out.append(list(e) if isinstance(e, tuple) else e)
@@ -940,26 +1227,73 @@ class C18(Prop):
             tags.add('min-age-not-observed')
         if hits:
             tags.add('cache-hit')
-        nops = len(case['ops'])
+        events = self._events(case)
+        nops = len(events) - len(PORTS)
         real_c = [self._relax(r, amb[i]) for i, r in enumerate(real)]
         model_c = [self._relax(m, amb[i]) for i, m in enumerate(model)]
+        if real_c != model_c and any(t.startswith('overlapped-removal') for t in tags):
+            # the code may carry the candidate repair of remove_samples (cache dropped again after the persistence call)
+            model3, _ = self._model(case, driver, variant=3)
+            model3_c = [self._relax(m, amb[i]) for i, m in enumerate(model3)]
+            if real_c == model3_c:
+                model_c = model3_c
+                tags.add('remove-invalidates-after')
         fail = None
         if ofail is not None:
             fail = Failure('property', ofail, real=real_c, model=model_c)
+            if (self.known_race is not None and self.known_match(self.known_race, case, fail)
+                    and case.get('ops') != self.known_race.get('example', {}).get('ops')):
+                # one more instance of the recorded finding: counted, not reported again (its witness in the corpus is
+                # what prints KNOWN-FINDING); keeps the per-worker failure budget for anything else
+                tags.add('known-remove-overlap-race-instance')
+                fail = None
         elif real_c != model_c:
             k = next(i for i in range(len(model_c)) if real_c[i] != model_c[i])
-            what = case['ops'][k] if k < nops else f'final content of port {list(PORTS)[k - nops]}'
-            fail = Failure('correspondence', f'first difference at op {k} {what}: real {real_c[k]} model {model_c[k]}',
-                           real=real_c, model=model_c)
+            what = events[k] if k < nops else f'final content of port {list(PORTS)[k - nops]}'
+            fail = Failure('correspondence', f'first difference at op {k} {str(what)[:300]}: real {str(real_c[k])[:300]} '
+                           f'model {str(model_c[k])[:300]}', real=real_c, model=model_c)
         nonempty = any(isinstance(r, list) and r[1] and r[1] != ['n'] * len(r[1]) for r in real[:nops])
         key = None
         if nonempty and tags & {'cache-hit', 'delete', 'change-recorded', 'save-sample', 'limit-cut', 'dup-timestamps',
-                                'unsorted-timestamps', 'periodic-sample', 'janitor-removed'}:
-            key = repr(real_c)
-        return fail, {'tags': sorted(tags), 'key': key, 'observed': real_c}
+                                'unsorted-timestamps', 'periodic-sample', 'janitor-removed', 'overlapped-query-a',
+                                'overlapped-query-b', 'overlapped-removal-a', 'overlapped-removal-b'}:
+            key = repr(real_c)[:4000]
+        return fail, {'tags': sorted(tags), 'key': key, 'observed': real_c if len(repr(real_c)) < 20000 else 'long'}
 
     def known_match(self, finding, case, failure):
+        """C18-remove-overlap-stale-cache: a removal suspended BEFORE its persistence call executes (dicts already
+        popped), a by-timestamp query inside that window, and afterwards a by-timestamp answer that still shows a
+        removed sample."""
+        if finding.get('id') != 'C18-remove-overlap-stale-cache' or failure.kind != 'property':
+            return False
+        import re
+        m = re.match(r'op (\d+) ', failure.detail)
+        if not m:
+            return False
+        k = int(m.group(1))
+        ev = self._events(case)
+        if k >= len(ev):
+            return False
+        bad = ev[k]
+        is_byts = lambda o: (o[0] == 'get' and 'timestamps' in o[4]) or o[0] == 'hbyts'   # noqa: E731
+        if not is_byts(bad):
+            return False
+        # a removal suspended in mode 'b' that ended before the failing query, with a by-timestamp query inside
+        i = 0
+        while i < k:
+            o = ev[i]
+            if o[0] == 'begin' and o[1] == 'b' and o[2][0] in ('del', 'hremove'):
+                j = i + 1
+                inside = False
+                while j < len(ev) and ev[j][0] != 'end':
+                    inside = inside or is_byts(ev[j])
+                    j += 1
+                if inside and j < k:
+                    return True
+                i = j
+            i += 1
         return False
+
 
 
 PROP = C18
